@@ -19,6 +19,10 @@ Inductive conn (h : list op) : Z -> Z -> Prop :=
 | conn_sym x y : conn h x y -> conn h y x
 | conn_trans x y z : conn h x y -> conn h y z -> conn h x z.
 
+(* the distinct elements in order of first insertion *)
+Definition ins (acc : list Z) (x : Z) : list Z := if existsb (Z.eqb x) acc then acc else acc ++ [x].
+Definition added (h : list op) : list Z := fold_left ins (flat_map touched h) [].
+
 (* operations that are queries *)
 Definition is_query (o : op) : Prop :=
   match o with Add _ | Union _ _ => False | _ => True end.
@@ -35,6 +39,11 @@ Record uf_wf (s : uf) : Prop := {
   wf_len_par : length (par s) = length (elts s);
   wf_len_siz : length (siz s) = length (elts s);
   wf_nodup : NoDup (elts s);
+  (* n_elts, _next and the dict _indx are consistent with _elts *)
+  wf_n_elts : n_elts s = length (elts s);
+  wf_next : next s = length (elts s);
+  wf_indx : indx s = combine (elts s) (seq 0 (length (elts s)));
+  wf_lookup : forall x, lookup x (indx s) = index_of x (elts s);
   (* parents in range *)
   wf_par_lt : forall i, i < length (elts s) -> getp (par s) i < length (elts s);
   (* acyclic: the loop of find ends within its fuel, at a root of the same tree *)
